@@ -414,6 +414,16 @@ def nodupB : List Id → Bool
   | [] => true
   | i :: r => !(r.contains i) && nodupB r
 
+mutual
+/-- every sub-serializable taken from the storage (`reused`) satisfies `P` (used with
+`P i := i loads without the identifier being stored`: the new content must not refer back to itself) -/
+def Node.reusedOK (P : Id → Prop) : Node → Prop
+  | .mk id _ _ _ reused children => (reused = true → ∀ i, id = some i → P i) ∧ reusedOKs P children
+def reusedOKs (P : Id → Prop) : List Node → Prop
+  | [] => True
+  | c :: cs => c.reusedOK P ∧ reusedOKs P cs
+end
+
 /-- the state a failure leaves behind is acceptable: a new backend object can list it, everything listed
 loads, every identifier holds its old or its new content -/
 def LoadableFS (b : Backend) (fs : FS) (pre fin : Store) : Prop :=
